@@ -222,8 +222,17 @@ def execute(case):
                          f'{tag}: {n}.requires_grad={p.requires_grad}, reference says {want} '
                          f'(reference state {exp})', culprit)
                     return
-        # frozen masks keep their (all open) value whatever was trained
+        # frozen masks keep their (all open) value whatever was trained, and never require a gradient
         for mn, mod, attr in ref.frozen_maskers:
+            t_ = getattr(mod, attr)
+            if t_.requires_grad or getattr(mod, 'trainable', False):
+                fail('a mask frozen by construction became trainable', 'frozen-trainable',
+                     f'{tag}: {mn}.{attr}.requires_grad={t_.requires_grad} trainable={getattr(mod, "trainable", None)}', culprit)
+                return
+            if t_.grad is not None and bool(torch.any(t_.grad != 0)):
+                fail('a mask frozen by construction received a gradient from loss + cost', 'frozen-grad',
+                     f'{tag}: {mn}.{attr}.grad={t_.grad.flatten()[:4].tolist()}', culprit)
+                return
             th = mod.theta.detach()
             bump('frozen_value_checks')
             if not torch.equal(th, frozen_theta0[mn]):
